@@ -53,8 +53,8 @@ oracle decides: Some(v)/Ok(v) must equal the exact value rounded in the document
 min>max, unrepresentable result or a documented intermediate (a+d for round-up division, magnitude conversion to the signed \
 type, pool_value+usd); None on a representable result of the widening mul_div family is a violation; any panic is a violation. \
 Signed mul_div is read as magnitude-floor (truncation toward zero). non-trivial = the helper returned a value that was compared \
-with the BigInt value and no multiplicand/dividend was zero; distinct = hash(helper,type,operands) over the first 20000 \
-non-trivial cases of each shard (memory bound, so a lower bound).";
+with the BigInt value and no multiplicand/dividend was zero; distinct = hash(helper,type,operands) over the first 1.9e6/(2·shards) \
+non-trivial cases of each shard and type (memory bound, so a lower bound).";
 
 struct Cx<'a> {
     m: &'a mut Monitor,
@@ -1106,12 +1106,12 @@ fn rng_bool(i: u64) -> bool {
     (i / N_HELPERS) % 2 == 0
 }
 
-fn shard_run<T: Nx + FixedPointOps<D>, const D: u8>(seed: u64, shard: u64, n: u64, m: &mut Monitor) {
+fn shard_run<T: Nx + FixedPointOps<D>, const D: u8>(seed: u64, shard: u64, shards: u64, n: u64, m: &mut Monitor) {
     let mut rng = Rng::derive(seed, shard, fnv(T::NAME.as_bytes()));
     let mut cx = Cx {
         m,
         t: Tally::default(),
-        d: Distinct::new(20_000),
+        d: Distinct::new(Distinct::budget_for(shards)),
         ty: T::NAME,
     };
     for i in 0..n {
@@ -1142,12 +1142,12 @@ pub fn run(args: &Args) -> i32 {
     let shards = args.scale(64, 256);
     let per_shard_per_type = match args.extra.get("cases").and_then(|s| s.parse::<u64>().ok()) {
         Some(n) => n,
-        None => args.scale(500_000, 1_400_000),
+        None => args.scale(2_000_000, 6_000_000),
     };
     let seed = args.seed;
     run_shards(&mut mon, args.threads, shards, |shard, m| {
-        shard_run::<u64, 9>(seed, shard, per_shard_per_type, m);
-        shard_run::<u128, 20>(seed, shard, per_shard_per_type, m);
+        shard_run::<u64, 9>(seed, shard, shards, per_shard_per_type, m);
+        shard_run::<u128, 20>(seed, shard, shards, per_shard_per_type, m);
     });
     mon.assume("integer exponents are exercised up to 8 units for bases above one unit and 40 units otherwise (the real power loops exponent/UNIT times)");
     mon.assume("non-unit exponents (rust_decimal approximation, documented 'do not use') are observed for panics only");
